@@ -96,10 +96,12 @@ impl ProgressValues {
 }
 impl AddAssign for ProgressValues {
     fn add_assign(&mut self, rhs: Self) {
-        self.work += rhs.work;
+        // The work and byte totals saturate: a few huge (sparse) files can add up to more than a u64 holds,
+        // and the same amounts are added to `total` and to `sent`, so the two still agree at the end.
+        self.work = self.work.saturating_add(rhs.work);
         self.delete += rhs.delete;
         self.copy += rhs.copy;
-        self.copy_bytes += rhs.copy_bytes;
+        self.copy_bytes = self.copy_bytes.saturating_add(rhs.copy_bytes);
     }
 }
 impl SubAssign for ProgressValues {
